@@ -23,6 +23,11 @@ Definition mem (c : ch) (l : list ch) : bool := existsb (N.eqb c) l.
 Definition is_space (c : ch) : bool := mem c space_chars.
 Definition is_nl (c : ch) : bool := (c =? LF) || (c =? CR).
 
+(* list reversal in linear time (the standard library's rev is quadratic under vm_compute);
+   StrProofs.frev_rev : frev l = rev l *)
+Definition frev {A} (l : list A) : list A := rev_append l [].
+Arguments frev : simpl never.
+
 Fixpoint drop_while (p : ch -> bool) (l : str) : str :=
   match l with
   | [] => []
@@ -30,7 +35,7 @@ Fixpoint drop_while (p : ch -> bool) (l : str) : str :=
   end.
 
 Definition lstrip (p : ch -> bool) (l : str) : str := drop_while p l.
-Definition rstrip (p : ch -> bool) (l : str) : str := rev (drop_while p (rev l)).
+Definition rstrip (p : ch -> bool) (l : str) : str := frev (drop_while p (frev l)).
 (* s.strip() *)
 Definition strip_ws (l : str) : str := rstrip is_space (lstrip is_space l).
 (* s.rstrip('\r\n') : removes every trailing CR / LF *)
@@ -70,14 +75,14 @@ Definition nonempty (s : str) : bool := match s with [] => false | _ => true end
    terminator is yielded as it is *)
 Fixpoint phys_lines_aux (cur : str) (l : str) : list str :=
   match l with
-  | [] => match cur with [] => [] | _ => [rev cur] end
+  | [] => match cur with [] => [] | _ => [frev cur] end
   | c :: r =>
-      if c =? LF then rev (LF :: cur) :: phys_lines_aux [] r
+      if c =? LF then frev (LF :: cur) :: phys_lines_aux [] r
       else if c =? CR then
         match r with
-        | c2 :: r2 => if c2 =? LF then rev (LF :: cur) :: phys_lines_aux [] r2
-                      else rev (LF :: cur) :: phys_lines_aux [] r
-        | [] => [rev (LF :: cur)]
+        | c2 :: r2 => if c2 =? LF then frev (LF :: cur) :: phys_lines_aux [] r2
+                      else frev (LF :: cur) :: phys_lines_aux [] r
+        | [] => [frev (LF :: cur)]
         end
       else phys_lines_aux (c :: cur) r
   end.
